@@ -8,7 +8,8 @@ sys.path.insert(0, str(V))
 from gv.check import run_rules
 from gv.index import Index
 pid, sub = sys.argv[1], sys.argv[2]
-corpus = json.loads((V / "twins_corpus" / "corpus.json").read_text())
+cname_ = next((a.split("=")[1] for a in sys.argv if a.startswith("--corpus=")), "corpus.json")
+corpus = json.loads((V / "twins_corpus" / cname_).read_text())
 base = Index()
 bk = {f.key for f in run_rules(pid, base, "quick").findings}
 for e in corpus:
